@@ -443,6 +443,9 @@ class Harness:
                         # the notification has passed the `finishCalled is False` filter; postMortemCheck takes no lock:
                         # another thread may run before its body
                         h.preempt("pm-entry", ref)
+                    elif STATE_NAME.get(component.state) == "finished":
+                        # finishedCheck is about to take comp_lock: a kill from another thread may get the lock first
+                        h.preempt("fc-entry", ref)
                     try:
                         return orig(state, component)
                     finally:
@@ -510,10 +513,13 @@ class Harness:
 
     def preempt(self, where, ref):
         """A point inside postMortemCheck (which holds no lock) at which another thread may call into the controller."""
-        p = getattr(self.policy, "pm_kill_p", 0.0)
+        if where == "fc-entry":
+            p = getattr(self.policy, "fc_kill_p", 0.0)
+        else:
+            p = getattr(self.policy, "pm_kill_p", 0.0)
+            if getattr(self.policy, "pm_where", where) != where:
+                return
         if not p or self.killed or self.phase != "running" or self.in_wakeup:
-            return
-        if getattr(self.policy, "pm_where", where) != where:
             return
         if self.policy.rnd_env.random() < p:
             self.do_external("kill")
@@ -655,7 +661,8 @@ class RandomPolicy:
     (task exits / kills) and how eager the controller callbacks are relative to the other rx hops (ctrl_weight)."""
 
     def __init__(self, seed, burst_max=4, env_bias=0.5, ctrl_weight=1.0, eager_internal=False,
-                 kill_p=0.0, sleep_p=0.0, wake_p=0.3, max_sleeps=1, hold_asleep=False, pm_kill_p=0.0, pm_where="in-restart"):
+                 kill_p=0.0, sleep_p=0.0, wake_p=0.3, max_sleeps=1, hold_asleep=False, pm_kill_p=0.0, pm_where="in-restart",
+                 fc_kill_p=0.0, sleep_on_cond=False):
         self.rnd = random.Random(seed)
         # calls into the controller from outside (G02): a separate stream, so that the schedules of the runs without
         # such calls do not depend on these parameters
@@ -666,6 +673,10 @@ class RandomPolicy:
         self.hold_asleep = hold_asleep
         # pm_kill_p: killController() may arrive while postMortemCheck (no lock) is about to restart / restarting an engine
         self.pm_kill_p = pm_kill_p
+        # sleep_on_cond: sleep() is called while the component that produces a DoWhile condition runs (the finishedCheck that
+        # decides about the next iteration is then postponed)
+        self.sleep_on_cond = sleep_on_cond
+        self.fc_kill_p = fc_kill_p      # killController() wins the race for comp_lock against a pending finishedCheck
         self.pm_where = pm_where        # "pm-entry": before the body of postMortemCheck; "in-restart": inside Engine.restart
         self.burst_max = burst_max
         self.env_bias = env_bias
@@ -682,6 +693,10 @@ class RandomPolicy:
         if not (self.kill_p or self.sleep_p):
             return None
         r = self.rnd_env
+        if self.sleep_on_cond and not h.controller._start_sleeping and h.nsleep < self.max_sleeps:
+            running = [n for n in h.nodes if n.get("cond") and h.ref(n) in h.engines and h.engines[h.ref(n)].nrun > 0
+                       and h.engines[h.ref(n)]._exitReason is None]
+            return "sleep" if running and r.random() < 0.7 else None
         if self.kill_p and not h.killed and r.random() < self.kill_p:
             return "kill"
         if h.controller._start_sleeping:
